@@ -617,6 +617,14 @@ func runC01wb(op string, r *tokReader) string {
 					defer func() { ewkb.DefaultByteOrder = old }()
 					return ewkb.Marshal(g, srid)
 				},
+				"DefaultVars": func() ([]byte, error) {
+					oldS, oldO := ewkb.DefaultSRID, ewkb.DefaultByteOrder
+					ewkb.DefaultSRID, ewkb.DefaultByteOrder = srid, bo
+					defer func() { ewkb.DefaultSRID, ewkb.DefaultByteOrder = oldS, oldO }()
+					var buf bytes.Buffer
+					err := ewkb.NewEncoder(&buf).Encode(g)
+					return buf.Bytes(), err
+				},
 			}
 			if srid == 0 {
 				vs["wkb.Marshal"] = func() ([]byte, error) { return wkb.Marshal(g, bo) }
